@@ -22,6 +22,7 @@ import numpy as np
 ID = "C11"
 FLAVOUR = "san"
 LEVEL = "exploration"
+THOROUGH_MULT = 3.0       # deepens the sampled strata of the thorough tier (measured: about ten minutes on 16 cores)
 RULE = (
     "seeded generator.  Traces: 2-6 sequences (protein / nucleotide / ambiguous nucleotide / general letter, char, int and "
     "300-symbol alphabets), length 1-12 (thorough 1-30), optional unaligned prefix/suffix per sequence (clipped ends, reference "
